@@ -208,6 +208,8 @@ class CoWorld:
         for k, c in sorted(target["listing"].items()):
             t.add(tuple(KEYS[k].split("/")), None, HashInfo(ALG["name"], OID[c]))
         t.digest()
+        if ALG["name"] != "md5":
+            t.hash_info.name = ALG["name"]      # as build() does for a store of another algorithm (_build_external_tree_info)
         return t
 
     def checkout(self, target, force=False, relink=False, prompt="absent", sp="plain"):
